@@ -243,6 +243,52 @@ func (m *sizingMachine) Exec(op Tok) (opOut Tok, obs Tok) {
 			}
 		}
 		return opOut, TL(TNi(bad), TNi(q))
+	case 10:
+		// the same (eps, delta) test against the Redis-backed sketch (its Count goes through a Lua
+		// script of its own): a smaller stream, light keys of weight 5 and heavy ones of weight 10000
+		redisReset()
+		eps := float64(a[1].U()) / 1e6
+		delta := float64(a[2].U()) / 1e6
+		s, err := gx.NewCountMinSketchRedisFromEstimates(eps, delta)
+		if err != nil {
+			return opOut, TErr(errGeneric)
+		}
+		n := int(a[3].U())
+		total := uint64(0)
+		truth := map[string]uint64{}
+		heavy := map[string]bool{}
+		for j := 0; j < n/10+1; j++ {
+			k := string(shapedKey(a[4].U(), j, "heavy-"))
+			if s.Update([]byte(k), 10000) != nil {
+				return opOut, TErr(errGeneric)
+			}
+			heavy[k] = true
+			truth[k] += 10000
+			total += 10000
+		}
+		for i := 0; i < n; i++ {
+			k := string(shapedKey(a[4].U(), i, "k-"))
+			if s.Update([]byte(k), 5) != nil {
+				return opOut, TErr(errGeneric)
+			}
+			truth[k] += 5
+			total += 5
+		}
+		bad, q := 0, 0
+		for k, tc := range truth {
+			if heavy[k] {
+				continue
+			}
+			q++
+			c, err := s.Count([]byte(k))
+			if err != nil {
+				return opOut, TErr(errGeneric)
+			}
+			if c < tc || float64(c-tc) > eps*float64(total) {
+				bad++
+			}
+		}
+		return opOut, TL(TNi(bad), TNi(q))
 	case 9:
 		// fingerprint-hash quality on structured keys: 3000 fixed-width identifiers per width 20..35
 		// (varying digits last). Two different keys with the same 64-bit hash are a certain false
@@ -328,12 +374,13 @@ func genC15stat(g *Gen, tier string) *Case {
 		TL(TNi(7), TNi(g.Pick(20, 100, 1000, 4000)), TNi(g.Pick(2, 4)), TNi(g.Pick(1000, 10000, 100000)), TNu(seed)),
 		TL(TNi(8), TNi(g.Pick(10000, 50000, 200000)), TNi(g.Pick(100, 1000, 10000, 100000, 500000)), TNi(g.Pick(2000, 8000)), TNu(seed)),
 		TL(TNi(9), TNu(seed)),
+		TL(TNi(10), TNi(g.Pick(10000, 20000)), TNi(g.Pick(10000, 100000)), TNi(g.Pick(300, 600)), TNu(seed)),
 	}
 	return &Case{Ops: ops}
 }
 
 func sizingOpName(op Tok) string {
-	names := []string{"BloomSizing", "CuckooSizing", "CMSSizing", "BloomProbes", "CMSRows", "HLLIndex", "BloomFPR", "CuckooFPR", "CMSOverestimate", "CuckooHashCollisions"}
+	names := []string{"BloomSizing", "CuckooSizing", "CMSSizing", "BloomProbes", "CMSRows", "HLLIndex", "BloomFPR", "CuckooFPR", "CMSOverestimate", "CuckooHashCollisions", "CMSRedisEstimate"}
 	k := op.L[0].I()
 	if k < len(names) {
 		return names[k]
@@ -405,6 +452,12 @@ func monitorSizing(ops, obs []Tok) []MonViolation {
 				out = append(out, MonViolation{"stat/cuckoo/hash-collisions-on-structured-keys",
 					fmt.Sprintf("%d of %d fixed-width identifiers share their 64-bit fingerprint hash with another one, e.g. %q and %q; Insert of the first makes Lookup of the second true in an empty filter built for error rate 0.01: %v",
 						o.L[0].U(), o.L[1].U(), o.L[2].B, o.L[3].B, o.L[4].U() == 1), step})
+			}
+		case 10:
+			delta := float64(a[2].U()) / 1e6
+			if len(o.L) == 2 && aboveBudget(o.L[0].I(), o.L[1].I(), delta) {
+				out = append(out, MonViolation{"stat/cms-redis/estimate-outside-eps-N-above-delta",
+					fmt.Sprintf("Redis sketch eps=%g delta=%g: %d of %d light keys estimated outside [true, true+eps*N]", float64(a[1].U())/1e6, delta, o.L[0].I(), o.L[1].I()), step})
 			}
 		case 8:
 			delta := float64(a[2].U()) / 1e6
